@@ -228,9 +228,9 @@ fn send(job: &Job, op: &Op, shared: &Arc<Shared>, world: &World, step: usize) ->
 				})
 			})
 		}
-		Op::SetHook(m) => job.set_spawn_hook(world.hook(Some(*m))),
-		Op::ClearHook => job.set_spawn_hook(world.hook(None)),
-		Op::SetErrHandler => job.set_error_handler(world.error_handler()),
+		Op::SetHook(m) => world.set_hook(job, Some(*m)),
+		Op::ClearHook => world.set_hook(job, None),
+		Op::SetErrHandler => world.set_error_handler(job),
 		Op::UnsetErrHandler => job.unset_error_handler(),
 		Op::DropHandle => unreachable!(),
 		Op::RawContinue => job.control(watchexec_supervisor::job::Control::ContinueTryGracefulRestart),
@@ -277,9 +277,9 @@ pub fn run_case(case: &JobCase) -> Trace {
 		let mut job = Some(job);
 		// install the simulating hook (and optionally an error handler) first
 		if let Some(j) = &job {
-			j.set_spawn_hook(world.hook(None));
+			world.set_hook(&j, None);
 			if case.err_handler {
-				j.set_error_handler(world.error_handler());
+				world.set_error_handler(&j);
 			}
 		}
 		// `probe` must not keep the control queue open when the case drops its handle:
@@ -403,9 +403,9 @@ pub fn run_case_mt(case: &JobCase, senders: usize, settle_ms: u64) -> Trace {
 				*task_end.lock().unwrap() = Some((world.now_ms(), panicked));
 			});
 		}
-		job.set_spawn_hook(world.hook(None)).await;
+		world.set_hook(&job, None).await;
 		if case.err_handler {
-			job.set_error_handler(world.error_handler()).await;
+			world.set_error_handler(&job).await;
 		}
 		let n = case.steps.len();
 		let steps_obs: Arc<Mutex<Vec<StepObs>>> = Arc::new(Mutex::new(
